@@ -20,6 +20,14 @@
           info = `<depth>:<1 = completed iteration, 0 = abort notice>:<score>:<nodes>:<hashfull>:<pv moves, comma separated>`
           (`-` when there is no line), `<fuelOut>`/`<anomaly>` the ghost flags of the skeleton (0/1).
         → `err fen` / `err args` on malformed requests.
+    gog <same arguments as go>  the same search, and ADDITIONALLY the same `Search.go` from the same engine state
+                                with the GUARDED record `SearchReal.realCompGuarded K` (= `realCompG K Eval.shipped`,
+                                Proofs/SearchRealGuardedEq.lean: null-move pruning only with `beta > -Inf+MaxPlies`).
+                                The answer of `go` is followed by ` | nmpsane=1` when the two results agree in every
+                                field of the answer (score, move, ponder, counters, flags, info lines, digest of
+                                the state left behind) — the run-level hypothesis `NmpSane` of Props/C06real — and by
+                                ` | nmpsane=0 <head and info lines of the guarded run>` otherwise.  The engine continues
+                                from the UNGUARDED run (the one that corresponds to search.go).
 
   digest = `%016x/gen%d/buckets%d` exactly as /repo/search/export_verif.go `VerifDigest` (+
   /repo/heur/export_verif.go): FNV-1a-64 over, per bucket, the 8 bytes of pKeys (little endian) and per
@@ -31,6 +39,7 @@
   searches.  The search itself is `Search.go (realComp K)` unchanged, with fuel 10^9.
 -/
 import ChessVerif.Model.SearchReal
+import ChessVerif.Model.SearchRealG
 import ChessVerif.Model.Fen
 
 open ChessVerif
@@ -122,15 +131,27 @@ def parseGo (ws : List String) : Option GoArgs :=
     | _, _ => none
   | _ => none
 
-def runGo (st : DS) (a : GoArgs) : DS × String :=
+/-- the head and the info lines of an answer. -/
+def resultStr (r : Search.Result SearchReal.PS) : String :=
+  let infos := if r.out.isEmpty then "-" else String.intercalate ";" (r.out.reverse.map infoStr)
+  s!"{r.score} {r.move} {r.ponder} {r.st.nodes} {r.st.abNodes} {bstr r.st.fuelOut} {bstr r.st.anomaly} | {infos}"
+
+def runGo (st : DS) (a : GoArgs) (guard : Bool) : DS × String :=
   let K := mkKeys st.keysArr
   match Fen.fromFEN K a.fen.toUTF8.data with
   | .ok b0 =>
     let b := a.moves.foldl (fun b m => (b.makeMove K m).1) b0
     let r := SearchReal.goReal K a.L fuel st.eng b
     let e := r.engine
-    let infos := if r.out.isEmpty then "-" else String.intercalate ";" (r.out.reverse.map infoStr)
-    let ans := s!"{r.score} {r.move} {r.ponder} {r.st.nodes} {r.st.abNodes} {bstr r.st.fuelOut} {bstr r.st.anomaly} | {infos} | {digest e.ps}"
+    let dg := digest e.ps
+    -- the guarded run starts from the same engine state; only its verdict is kept
+    let sane : String :=
+      if guard then
+        let g := SearchReal.goRealGuarded K a.L fuel st.eng b
+        if resultStr g == resultStr r && digest g.engine.ps == dg then " | nmpsane=1"
+        else s!" | nmpsane=0 {resultStr g}"
+      else ""
+    let ans := s!"{resultStr r} | {dg}{sane}"
     ({ st with eng := { e with pv := normPv e.pv } }, ans)
   | _ => (st, "err fen")
 
@@ -145,7 +166,11 @@ def step (st : DS) (line : String) : DS × String :=
   | ["digest"] => (st, digest st.eng.ps)
   | "go" :: rest =>
     match parseGo rest with
-    | some a => runGo st a
+    | some a => runGo st a false
+    | none => (st, "err args")
+  | "gog" :: rest =>
+    match parseGo rest with
+    | some a => runGo st a true
     | none => (st, "err args")
   | _ => (st, "bad-op")
 
